@@ -147,6 +147,9 @@ func (x *runner) startOp(st Step) func() any {
 	case "leave":
 		n := x.r.Node(st.N)
 		return func() any { n.Leave(); return n.VerifState().String() }
+	case "stabilize": // one round of the periodic task as an operation of its own: it parks between computing and installing its list
+		n := x.r.Node(st.N)
+		return func() any { return ring.ErrClass(n.VerifStabilize()) }
 	case "put":
 		n, k := x.r.Node(st.At), x.r.Keys[st.K]
 		return func() any { return ring.ErrClass(n.Put(ctx, k, []byte(st.V))) }
@@ -231,6 +234,11 @@ func (x *runner) run() {
 	x.never = make(chan struct{})
 	gates := x.sc.Gates
 	x.sched.GatesOp = func(p string, op *verifkit.Op) bool {
+		if strings.HasPrefix(p, "stab:") { // only a stabilize round run as an operation parks here, not the advisory inside a join / leave
+			if !strings.HasPrefix(op.Name, "sb") {
+				return false
+			}
+		}
 		for _, g := range gates {
 			if strings.HasPrefix(p, g) {
 				if strings.HasPrefix(p, "ns:") {
